@@ -74,7 +74,7 @@ CHECKS["C01"] = dict(
         "PROVED in Coq (Properties_C01.v, SdlMapProofs.v) for map-style datasets, every configuration, every snapshot interval, every interruption point k and EVERY pair of arrival schedules: "
         "state_dict() after k batches loaded into a new iterator yields exactly batches k, k+1, ... then StopIteration; closed under chains of checkpoint/resume of any length (the resumed "
         "state is again a 'good' state at the same absolute position). ITERABLE datasets (SdlIterProofs.v, SdlIterResume.v): proved for every configuration, every k and every pair of arrival schedules "
-        "when snapshot_every_n_steps is 1 — the default — (C01_iter_resume_exact_every_step) or 0 (C01_iter_resume_exact_no_snapshots); for EVERY interval the main-process side of a resume is proved exact for every arrival schedule given the worker "
+        "when snapshot_every_n_steps is 1 — the default — (C01_iter_resume_exact_every_step) or 0 (C01_iter_resume_chain_no_snapshots: with or without dataset state, any chain); chains also for interval 1 (C01_iter_resume_chain_every_step); for EVERY interval the main-process side of a resume is proved exact for every arrival schedule given the worker "
         "entries of the state dict (C01_iter_resume_main_exact), and every worker entry a run writes is proved to be the state after the answer to an already handed-out task "
         "(C05_iter_checkpoint_never_ahead); that these entries are the LAST such states at boundaries of intervals >= 2 remains the target (small-scope theorem + correspondence). Tied to the code "
         "on every run by lockstep correspondence with REAL worker processes driven through the same arrival schedule (batch, main-process bookkeeping and abstracted state_dict() after every "
